@@ -404,3 +404,56 @@ fn vk_suspend_thread_protocol() {
         }
     }
 }
+
+// ---------------------------------------------------------------------------
+// [C] PtraceDumper::init (C11): the four best-effort steps (stop the process, complete the auxv info,
+// enumerate threads, enumerate mappings) are stubbed to fail independently (all 16 combinations, symbolic);
+// init still succeeds and records exactly one soft error per failed step, under the constructor of that
+// step. Loop-free relative to the stubs: no bound.
+// ---------------------------------------------------------------------------
+static mut FAIL: [bool; 4] = [false; 4];
+
+fn g_stop(_d: &mut PtraceDumper, _t: Duration) -> Result<(), StopProcessError> {
+    if unsafe { FAIL[0] } { Err(StopProcessError::Timeout) } else { Ok(()) }
+}
+fn g_auxv(_a: &mut AuxvDumpInfo, _pid: Pid, _e: impl WriteErrorList<AuxvError>) -> Result<(), AuxvError> {
+    if unsafe { FAIL[1] } { Err(AuxvError::InvalidFormat) } else { Ok(()) }
+}
+fn g_enum_threads(_d: &mut PtraceDumper, _e: impl WriteErrorList<InitError>) -> Result<(), InitError> {
+    if unsafe { FAIL[2] } { Err(InitError::CannotPtraceSameProcess) } else { Ok(()) }
+}
+fn g_enum_mappings(_d: &mut PtraceDumper) -> Result<(), InitError> {
+    if unsafe { FAIL[3] } { Err(InitError::CannotPtraceSameProcess) } else { Ok(()) }
+}
+fn g_sysconf(_v: nix::unistd::SysconfVar) -> nix::Result<Option<libc::c_long>> { Ok(Some(4096)) }
+
+#[kani::proof]
+#[kani::stub(PtraceDumper::stop_process, g_stop)]
+#[kani::stub(AuxvDumpInfo::try_filling_missing_info, g_auxv)]
+#[kani::stub(PtraceDumper::enumerate_threads, g_enum_threads)]
+#[kani::stub(PtraceDumper::enumerate_mappings, g_enum_mappings)]
+#[kani::stub(nix::unistd::sysconf, g_sysconf)]
+#[kani::unwind(6)]
+fn vk_init_best_effort_steps() {
+    unsafe { FAIL = kani::any(); }
+    let fail = unsafe { FAIL };
+    let mut d = bare_dumper(Vec::new(), Vec::new());
+    d.page_size = 0;
+    let mut errs: ErrorList<InitError> = ErrorList::default();
+    let r = d.init(Duration::from_millis(1), &mut errs);
+    assert!(r.is_ok(), "a failing best-effort step never fails init");                      // [C11]
+    assert!(d.page_size == 4096);
+    let n = fail.iter().filter(|f| **f).count();
+    assert!(errs.len() == n, "one soft error per failed step");                               // [C11]
+    {
+    let mut it = errs.iter();
+    if fail[0] { assert!(matches!(it.next(), Some(InitError::StopProcessFailed(_)))); }
+    if fail[1] { assert!(matches!(it.next(), Some(InitError::FillMissingAuxvInfoFailed(_)))); }
+    if fail[2] { assert!(matches!(it.next(), Some(InitError::EnumerateThreadsFailed(_)))); }
+    if fail[3] { assert!(matches!(it.next(), Some(InitError::EnumerateMappingsFailed(_)))); }
+    core::mem::forget(it);
+    }
+    core::mem::forget(r);
+    core::mem::forget(errs);
+    core::mem::forget(d);
+}
